@@ -26,11 +26,6 @@ partial def qvToJson : QV → Json
 def subsetsJson (rs : List (Nat × List QV)) : Json :=
   jarr (rs.map fun (i, vs) => jarr [jnat i, jarr (vs.map qvToJson)])
 
-/-- the decidable shape condition of `C16_query_eq_eval`: every replication node holds a whole number of
-    repetitions and the rendering cuts it into the same ones -/
-def shapeOK (m : QMsg) : Bool :=
-  (m.outs.zip m.trees).all fun (o, t) => repsOKList o t
-
 def queryOne (m : QMsg) (nested : Option (List (List NJ))) (s : String) : Json :=
   match parse s.toList with
   | .error e => jobj [("parse", errJson e)]
@@ -52,9 +47,9 @@ def opQuery (st : DrvState) (j : Json) : J (DrvState × Json) := do
     match mkMsg t c outs with
     | .error e => [("wire", errJson e)]
     | .ok m =>
-      let nested := (nestedAll t c outs).toOption
+      let nested := (Spec.nestedOf m).toOption       -- = `nestedAll t c outs` (the trees of `m` are `wireAll t c outs`)
       let labelOk := outs.all fun o => o.descs.all fun d => ddChars d == (ddLabel d).toList
-      [("wire", jstr "ok"), ("label_ok", Json.bool labelOk), ("shape_ok", Json.bool (shapeOK m)),
+      [("wire", jstr "ok"), ("label_ok", Json.bool labelOk), ("shape_ok", Json.bool (Spec.shapeOK m)),
        ("nested_ok", Json.bool nested.isSome),
        ("res", jarr (paths.map (queryOne m nested)))]
 
